@@ -23,6 +23,19 @@ Oracles at quiescence afterwards
   handles   (every run) the connection handles each controller announces, kept by an independent ledger fed with the raw
             HCI events (vlib/ref_hci_links.py): one handle names one link, whatever its kind
 
+Round 7 - (a) TEARDOWN procedures of the layers above classic L2CAP (rfcomm Client.shutdown / DLC.disconnect / Multiplexer.disconnect,
+sdp Client.disconnect, closing an AVDTP signalling channel with a command outstanding, HFP on a DLC) cut at every message:
+every classic channel / DLC object that had been open emitted exactly one 'close' event and is not left OPEN / CONNECTED /
+WAIT_DISCONNECT / DISCONNECTING, application tasks waiting for those close events and the HFP run loop ended.
+(b) client requests still being served when the link goes (CCCD read, CCCD write + read, long read of a slow dynamic value,
+prepared write), with refined cut positions: index 0 (together with the procedure), 'sync' (disconnect() in the turn the message
+is emitted) and 'delivered' (when the receiver is handed the message, before anything it spawns for it runs); leftover
+inspection over EVERY dict of the GATT server keyed by a bearer, an empty subscribers entry of a dead bearer included.
+(c) pairing with a user who takes 5 virtual s per prompt and never answers once the link went (passkey entry either side, legacy
+passkey, numeric comparison, just-works confirmation): every delegate call the stack made ended; and, for ALL cut runs, a
+snapshot of asyncio.all_tasks() after the settling time minus the tasks that existed before the connection and the harness's own:
+no task that works for a judged device is still pending.
+
 Kind 'multi' - SEVERAL links at once on one device (three devices; 18 topologies: two ACLs to different peers or to the
 same peer over both transports; ACL + eSCO + another ACL; ACL + CIS + another ACL; both; the same CIG / CIS identifiers
 on two ACLs of one device). For every link of the topology as the victim x 5 endings (disconnect from device 0's side, from
@@ -75,6 +88,10 @@ RULE = ('one case per (procedure, cut kind); inside it every HCI-message index o
         'distinct = (topology, victim, ending); seeded walks: distinct = seed. '
         'order: one case per (scenario, variant, failure status, delay); distinct = that tuple')
 ASSUMPTIONS = [
+    'task snapshot: a leftover task is attributed to a device through the locals of its coroutine chain (device, connection, '
+    'session, host, harness delegate); after a transport loss only tasks of the cut side are judged, the others are counted',
+    'a delegate prompt / value callback of the side whose peer lost its transport still has a live connection and is not judged',
+    'the state of an rfcomm Multiplexer after its channel closed is counted, not judged (it has no close event and nothing reads it)',
     'after a transport loss the controller (beyond the lost transport) and the remote side are not judged',
     'a waiter may end with a result, an exception or a cancellation; only "still pending at T_v" is a violation',
     'the peripheral accepts CIS requests with accept_cis_request guarded by cancel_on_disconnection of the ACL, the way '
@@ -101,6 +118,12 @@ MULTI_MIN = {'multi_histories': 700, 'multi_victim_teardowns': 400, 'multi_victi
              'order_ext_adv_terminated-after-data': 18, 'order_adv_event_swaps': 36,
              'order_connections_on_a_handle_used_before': 50, 'order_refused_disconnections': 8, 'order_failed_connections': 6,
              'order_failed_security_procedures': 5, 'order_waiters_judged': 25}
+R7_MIN = {'upper_close_event_checks': 300, 'upper_layer_waiters': 200, 'upper_objects_dlc': 100, 'task_snapshots': 1800,
+          'delegate_prompts_pending_at_cut': 100, 'delegate_prompts_pending_at_cut_get_number': 30,
+          'delegate_prompts_pending_at_cut_display_number': 30, 'delegate_prompts_pending_at_cut_compare_numbers': 4,
+          'delegate_prompts_pending_at_cut_confirm': 4, 'cut_runs_delivered': 150, 'cut_runs_sync': 60,
+          'value_callbacks_started': 300}
+MULTI_MIN.update(R7_MIN)
 MIN_EVENTS = {
     'quick': dict({'cut_runs': 1800, 'cuts_before_completion': 1200, 'table_checks': 1800, 'leftover_checks': 1800,
                    'link_table_checks': 100, 'links_tracked': 150, 'link_disconnection_event_checks': 120, 'side_waiters': 100,
@@ -127,6 +150,40 @@ PROCS += ['gatt-eatt-read', 'gatt-eatt-indicate', 'gatt-eatt-indicate-single', '
           'coc-disconnect-cancelled', 'avdtp-discover']
 NEW_PROCS = ('gatt-eatt-read', 'gatt-eatt-indicate', 'gatt-eatt-indicate-single', 'gatt-indicate-queued',
              'coc-disconnect-cancelled', 'avdtp-discover')
+
+
+# --- round 7 ----------------------------------------------------------------------------------------------------------
+# TEARDOWN procedures of the layers above classic L2CAP (each ends in an L2CAP Disconnection Request whose answer may
+# never come because the ACL goes first): the upper-layer objects (DLCs, multiplexers, channels that had been open) must be
+# told, their waiters released
+TEARDOWN_PROCS = ['rfcomm-shutdown', 'rfcomm-dlc-disconnect', 'rfcomm-mux-disconnect', 'sdp-disconnect',
+                  'avdtp-channel-close', 'hfp-dlc-shutdown']
+# client requests still being SERVED when the link goes (the server answers from a spawned task)
+INFLIGHT_PROCS = ['gatt-cccd-read', 'gatt-cccd-write', 'gatt-dynamic-long-read', 'gatt-prepared-write']
+# pairing with a user who is slow to answer, one procedure per association model / prompting side
+PROMPT_PROCS = ['pair-passkey-initiator-inputs', 'pair-passkey-responder-inputs', 'pair-legacy-passkey',
+                'pair-numeric-comparison', 'pair-just-works-confirm']
+PROMPT_SETUP = {  # io capability of device 0 (initiator), of device 1, secure connections, mitm
+    'pair-passkey-initiator-inputs': ('KEYBOARD_INPUT_ONLY', 'DISPLAY_OUTPUT_ONLY', True, True),
+    'pair-passkey-responder-inputs': ('DISPLAY_OUTPUT_ONLY', 'KEYBOARD_INPUT_ONLY', True, True),
+    'pair-legacy-passkey': ('KEYBOARD_INPUT_ONLY', 'DISPLAY_OUTPUT_ONLY', False, True),
+    'pair-numeric-comparison': ('DISPLAY_OUTPUT_AND_YES_NO_INPUT', 'DISPLAY_OUTPUT_AND_YES_NO_INPUT', True, True),
+    'pair-just-works-confirm': ('DISPLAY_OUTPUT_AND_YES_NO_INPUT', 'NO_OUTPUT_NO_INPUT', True, False),
+}
+PROCS += TEARDOWN_PROCS + INFLIGHT_PROCS + PROMPT_PROCS
+NEW_PROCS += tuple(TEARDOWN_PROCS + INFLIGHT_PROCS + PROMPT_PROCS)
+# procedures whose cut points are refined below the message index: besides 'log' (a loop turn after message k was
+# emitted) also 'sync' (disconnect() called in the very turn message k is emitted, so that the Disconnect command travels
+# right behind it) and 'delivered' (the cut lands when message k has been handed to its receiver and before anything the
+# receiver spawned for it has run); and index 0 (the cut starts together with the procedure)
+FINE_PROCS = tuple(INFLIGHT_PROCS)
+CLASSIC_PROCS = ('classic-connect', 'classic-disconnect', 'rfcomm-open', 'sdp-query', 'avdtp-discover') + tuple(TEARDOWN_PROCS)
+
+
+def positions(proc, cut):
+    if proc not in FINE_PROCS:
+        return ('log',)
+    return ('log', 'sync', 'delivered') if cut.startswith('disc') else ('log', 'delivered')
 
 
 def kp(proc):
@@ -175,6 +232,9 @@ def plan(tier, seed):
 # measured CPU seconds of one quick-tier case
 CASE_WEIGHT = {'coc-drain': 8.2, 'coc-drain-rev': 8.2, 'gatt-long-read': 3.4, 'gatt-discover': 2.1, 'gatt-read': 1.5,
                'gatt-write': 1.5, 'pair-sc': 1.1, 'pair-legacy': 1.0, 'rfcomm-open': 0.9, 'avdtp-discover': 0.7,
+               'pair-passkey-initiator-inputs': 2.7, 'pair-passkey-responder-inputs': 2.7, 'gatt-dynamic-long-read': 1.4,
+               'gatt-prepared-write': 0.8, 'pair-legacy-passkey': 0.5, 'pair-numeric-comparison': 0.6,
+               'pair-just-works-confirm': 0.6, 'gatt-cccd-write': 0.5,
                'sdp-query': 0.6, 'gatt-indicate-queued': 0.5, 'gatt-eatt-indicate-single': 0.4, 'classic-connect': 0.4}
 KIND_WEIGHT = {'multi': 0.4, 'multi-random': 0.2, 'order': 0.04, 'stale': 0.02, 'real-transport': 0.05, 'cut': 0.2}
 
@@ -289,6 +349,162 @@ async def build_iso(case, proc, ctx):
 
 
 # -----------------------------------------------------------------------------
+def slow_user_class():
+    from bumble.pairing import PairingDelegate
+
+    class SlowUserDelegate(PairingDelegate):
+        """A user who takes 5 (virtual) seconds to answer every prompt, and who does not answer at all once the link has
+        gone while the prompt was up. Keeps its own record of every prompt: started / ended (the `finally` of the call
+        the stack made ran)."""
+
+        def __init__(self, dev, io, st):
+            super().__init__(io)
+            self.dev_index, self.st = dev, st
+
+        async def _prompt(self, name, answer, wait_for_passkey=False):
+            rec = {'dev': self.dev_index, 'prompt': name, 'ended': False, 'pending_at_cut': False}
+            self.st['prompts'].append(rec)
+            try:
+                for _ in range(2000 if wait_for_passkey else 0):
+                    if self.st['passkey'] is not None:
+                        break
+                    await asyncio.sleep(0.01)
+                if not self.st['dry']:
+                    await asyncio.sleep(5)
+                    if self.st['cut']:
+                        await asyncio.sleep(10 ** 7)
+                return answer() if callable(answer) else answer
+            finally:
+                rec['ended'] = True
+
+        async def confirm(self, auto=False):
+            return await self._prompt('confirm', True)
+
+        async def compare_numbers(self, number, digits):
+            return await self._prompt('compare_numbers', True)
+
+        async def get_number(self):
+            return await self._prompt('get_number', lambda: self.st['passkey'], wait_for_passkey=True)
+
+        async def display_number(self, number, digits):
+            self.st['passkey'] = number
+            return await self._prompt('display_number', None)
+    return SlowUserDelegate
+
+
+def SlowUser(dev, io, st):
+    return slow_user_class()(dev, io, st)
+
+
+class UpperWatch:
+    """Classic L2CAP channel objects (found by sweeping the channel manager's table at every HCI message), RFCOMM DLCs and
+    multiplexers (handed in by the harness), with the 'open' / 'close' events each one emitted. What must be true after
+    the ACL went is decided from these records: an object that had been open must have said that it closed."""
+
+    def __init__(self, rg):
+        self.rg = rg
+        self.objs = {}
+
+    def see(self, dev, kind, obj, was_open=None):
+        if obj is None or id(obj) in self.objs:
+            return
+        rec = {'dev': dev, 'kind': kind, 'obj': obj, 'opened': 0, 'closed': 0}
+        self.objs[id(obj)] = rec
+        state = getattr(getattr(obj, 'state', None), 'name', '')
+        if was_open or (was_open is None and state in ('OPEN', 'CONNECTED')):
+            rec['opened'] = 1
+        if kind != 'multiplexer':
+            obj.on('open', lambda *a, _r=rec: _r.__setitem__('opened', _r['opened'] + 1))
+            obj.on('close', lambda *a, _r=rec: _r.__setitem__('closed', _r['closed'] + 1))
+
+    def sweep(self):
+        for dev, d in enumerate(self.rg.devices):
+            for chans in list(d.l2cap_channel_manager.channels.values()):
+                for ch in list(chans.values()):
+                    self.see(dev, 'classic-channel', ch)
+
+    def attach(self):
+        self.rg.on_hci_logged.append(lambda rec: self.sweep())
+        self.sweep()
+
+
+async def build_teardown(proc, ctx):
+    from bumble import rfcomm, sdp, core
+    rg, c0, c1 = ctx['rg'], ctx['c0'], ctx['c1']
+    d0, d1 = rg.devices
+    up = ctx['upper'] = UpperWatch(rg)
+    up.attach()
+    side = ctx.setdefault('side_waiters', [])
+    loop = asyncio.get_running_loop()
+
+    def closed_waiter(name, dev, obj):
+        # an application task that waits for the object to say that it closed
+        ev = asyncio.Event()
+        obj.on('close', ev.set)
+        side.append((name, dev, asyncio.ensure_future(ev.wait())))
+
+    if proc.startswith('rfcomm') or proc.startswith('hfp'):
+        accepted = loop.create_future()
+        server = ctx['rf_server'] = rfcomm.Server(d1)
+        channel = server.listen(acceptor=lambda dlc: accepted.done() or accepted.set_result(dlc))
+        client = ctx['rf_client'] = rfcomm.Client(c0)
+        mux = ctx['rf_mux'] = await vloop.vwait(client.start())
+        dlc0 = ctx['dlc'] = await vloop.vwait(mux.open_dlc(channel))
+        dlc1 = ctx['dlc_server'] = await vloop.vwait(accepted)
+        await rg.quiesce()
+        up.see(0, 'dlc', dlc0, True)
+        up.see(1, 'dlc', dlc1, True)
+        up.see(0, 'multiplexer', mux, True)
+        for m in list(getattr(server, 'multiplexers', {}).values()):
+            up.see(1, 'multiplexer', m, True)
+        closed_waiter('dlc-close-event', 0, dlc0)
+        closed_waiter('dlc-close-event', 1, dlc1)
+        if proc.startswith('hfp'):
+            from bumble import hfp
+            hf = ctx['hf'] = hfp.HfProtocol(dlc0, hfp.HfConfiguration(
+                supported_hf_features=[], supported_hf_indicators=[], supported_audio_codecs=[hfp.AudioCodec.CVSD]))
+            ctx['ag'] = hfp.AgProtocol(dlc1, hfp.AgConfiguration(
+                supported_ag_features=[], supported_ag_indicators=[
+                    hfp.AgIndicatorState.call(), hfp.AgIndicatorState.callsetup(), hfp.AgIndicatorState.service(),
+                    hfp.AgIndicatorState.signal(), hfp.AgIndicatorState.roam(), hfp.AgIndicatorState.callheld(),
+                    hfp.AgIndicatorState.battchg()],
+                supported_hf_indicators=[], supported_ag_call_hold_operations=[], supported_audio_codecs=[hfp.AudioCodec.CVSD]))
+            await vloop.vwait(hf.initiate_slc())
+            side.append(('hfp-run-loop', 0, asyncio.ensure_future(hf.run())))
+            await rg.quiesce()
+    elif proc == 'sdp-disconnect':
+        d1.sdp_service_records = {0x10001: [
+            sdp.ServiceAttribute(sdp.SDP_SERVICE_RECORD_HANDLE_ATTRIBUTE_ID, sdp.DataElement.unsigned_integer_32(0x10001)),
+            sdp.ServiceAttribute(sdp.SDP_SERVICE_CLASS_ID_LIST_ATTRIBUTE_ID,
+                                 sdp.DataElement.sequence([sdp.DataElement.uuid(core.UUID('1101'))]))]}
+        client = ctx['sdp_client'] = sdp.Client(c0)
+        await vloop.vwait(client.connect())
+        await vloop.vwait(client.search_attributes([core.UUID('1101')], [(0, 0xFFFF)]))
+        await rg.quiesce()
+        closed_waiter('sdp-channel-close-event', 0, client.channel)
+    elif proc == 'avdtp-channel-close':
+        from bumble import avdtp, a2dp
+        caps = avdtp.MediaCodecCapabilities(
+            media_type=avdtp.MediaType.AUDIO, media_codec_type=a2dp.CodecType.SBC,
+            media_codec_information=a2dp.SbcMediaCodecInformation(
+                sampling_frequency=a2dp.SbcMediaCodecInformation.SamplingFrequency.SF_48000,
+                channel_mode=a2dp.SbcMediaCodecInformation.ChannelMode.JOINT_STEREO,
+                block_length=a2dp.SbcMediaCodecInformation.BlockLength.BL_16,
+                subbands=a2dp.SbcMediaCodecInformation.Subbands.S_8,
+                allocation_method=a2dp.SbcMediaCodecInformation.AllocationMethod.LOUDNESS,
+                minimum_bitpool_value=2, maximum_bitpool_value=53))
+        listener = ctx['avdtp_listener'] = avdtp.Listener.for_device(d1)
+        listener.on('connection', lambda server: server.add_sink(caps))
+        protocol = ctx['avdtp'] = await vloop.vwait(avdtp.Protocol.connect(c0))
+        await vloop.vwait(protocol.discover_remote_endpoints())
+        await rg.quiesce()
+        closed_waiter('avdtp-channel-close-event', 0, protocol.l2cap_channel)
+    up.sweep()
+    if not any(rec['kind'] == 'classic-channel' and rec['opened'] for rec in up.objs.values()):
+        raise RuntimeError(f'{proc}: no open classic channel found by the sweep')
+
+
+# -----------------------------------------------------------------------------
 async def build(case, proc):
     """Returns ctx dict with rig, conns, op factory. A procedure name ending in -rev runs over a link made the other
     way round (device 0, which starts the procedure, is the link PERIPHERAL; the GATT server sits on the link central)."""
@@ -299,8 +515,7 @@ async def build(case, proc):
     from bumble.pairing import PairingConfig, PairingDelegate
     from vlib import rig as vrig
     vrig.seed_entropy(case['seed'])
-    classic = proc in ('classic-connect', 'classic-disconnect', 'rfcomm-open', 'sdp-query', 'avdtp-discover') or \
-        proc.startswith('sco')
+    classic = proc in CLASSIC_PROCS or proc.startswith('sco')
     # VERIF_SEED selects the delay schedule (0: none, 1, 2: up to that many loop turns per
     # hop) and, in the quick tier, which message indices are sampled
     rg = vrig.Rig(2, seed=case['seed'], max_delay=(case['seed'] // 1000003) % 3, classic=classic)
@@ -317,7 +532,23 @@ async def build(case, proc):
             | gatt.Characteristic.Properties.NOTIFY | gatt.Characteristic.Properties.INDICATE,
             gatt.Characteristic.READABLE | gatt.Characteristic.WRITEABLE,
             bytes(range(256)) + bytes(44) if proc == 'gatt-long-read' else bytes(range(10)))
-        svc = gatt.Service('D0000000-0000-1000-8000-00805F9B34FB', [ch])
+        chars_ = [ch]
+        if proc == 'gatt-dynamic-long-read':
+            # a value the application computes on demand, slowly (1 virtual second per ATT read / read blob)
+            async def slow_read(connection):
+                r_ = ctx.setdefault('value_callbacks', [0, 0])
+                r_[0] += 1
+                try:
+                    await asyncio.sleep(1)
+                    return bytes(range(100))
+                finally:
+                    r_[1] += 1
+            ch = gatt.Characteristic(
+                'D0000002-0000-1000-8000-00805F9B34FB',
+                gatt.Characteristic.Properties.READ | gatt.Characteristic.Properties.NOTIFY, gatt.Characteristic.READABLE,
+                gatt.CharacteristicValue(read=slow_read))
+            chars_ = [ch]
+        svc = gatt.Service('D0000000-0000-1000-8000-00805F9B34FB', chars_)
         d1.add_service(svc)
         ctx['server_char'] = ch
         if 'eatt' in proc:
@@ -327,7 +558,19 @@ async def build(case, proc):
             d.pairing_config_factory = lambda conn, _sc=(proc != 'pair-legacy'): PairingConfig(
                 sc=_sc, mitm=False, bonding=True, delegate=PairingDelegate(),
                 identity_address_type=PairingConfig.AddressType.RANDOM)
+    if proc in PROMPT_PROCS:
+        io0, io1, sc_, mitm_ = PROMPT_SETUP[proc]
+        st = ctx['prompt_state'] = {'dry': case.get('_dry', False), 'cut': False, 'prompts': [], 'passkey': None}
+        dels = ctx['delegates'] = [SlowUser(0, getattr(PairingDelegate.IoCapability, io0), st),
+                                   SlowUser(1, getattr(PairingDelegate.IoCapability, io1), st)]
+        for d, dl in zip((d0, d1), dels):
+            d.pairing_config_factory = lambda conn, _dl=dl: PairingConfig(
+                sc=sc_, mitm=mitm_, bonding=True, delegate=_dl, identity_address_type=PairingConfig.AddressType.RANDOM)
     await rg.power_on()
+    await rg.quiesce()
+    # every task that exists before there is a connection (the harness's own included) is not the connection's
+    ctx['tasks_before'] = set(asyncio.all_tasks())
+    ctx['own_tasks'] = []
     if classic:
         c0, c1 = await rg.connect_classic(0, 1)
     elif rev:
@@ -349,6 +592,10 @@ async def build(case, proc):
             await vloop.vwait(ctx['char'].discover_descriptors())
         if proc in ('gatt-indicate', 'gatt-indicate-queued', 'gatt-eatt-indicate-single'):
             await vloop.vwait(ctx['char'].subscribe(lambda v: None, prefer_notify=False))
+        if proc in ('gatt-cccd-read', 'gatt-cccd-write'):
+            ctx['cccd'] = ctx['char'].get_descriptor(gatt.GATT_CLIENT_CHARACTERISTIC_CONFIGURATION_DESCRIPTOR)
+            if ctx['cccd'] is None:
+                raise RuntimeError('no CCCD discovered')
         if 'eatt' in proc:
             # one enhanced bearer next to the unenhanced one, with its own client, proxies and subscription
             from bumble import gatt_client
@@ -395,6 +642,8 @@ async def build(case, proc):
                 minimum_bitpool_value=2, maximum_bitpool_value=53))
         listener = ctx['avdtp_listener'] = avdtp.Listener.for_device(d1)
         listener.on('connection', lambda server: server.add_sink(caps))
+    if proc in TEARDOWN_PROCS:
+        await build_teardown(proc, ctx)
     if proc == 'encrypt':
         await vloop.vwait(c0.pair())
         await rg.quiesce()
@@ -451,8 +700,42 @@ def make_op(ctx, proc):
             from bumble import avdtp
             protocol = await avdtp.Protocol.connect(c0)
             return await protocol.discover_remote_endpoints()
-        if proc in ('pair-legacy', 'pair-sc'):
+        if proc in ('pair-legacy', 'pair-sc') or proc in PROMPT_PROCS:
             return await c0.pair()
+        if proc == 'gatt-cccd-read':
+            return await ctx['cccd'].read_value()
+        if proc == 'gatt-cccd-write':
+            await ctx['cccd'].write_value(bytes([1, 0]), with_response=True)
+            return await ctx['cccd'].read_value()
+        if proc == 'gatt-dynamic-long-read':
+            return await ctx['char'].read_value()
+        if proc == 'gatt-prepared-write':
+            from bumble import att
+            client = c0.gatt_client
+            out = []
+            for req in (att.ATT_Prepare_Write_Request(attribute_handle=ctx['char'].handle, value_offset=0,
+                                                      part_attribute_value=bytes(range(18))),
+                        att.ATT_Prepare_Write_Request(attribute_handle=ctx['char'].handle, value_offset=18,
+                                                      part_attribute_value=bytes(range(6))),
+                        att.ATT_Execute_Write_Request(flags=1)):
+                out.append(type(await client.send_request(req)).__name__)
+            return out
+        if proc in ('rfcomm-shutdown', 'hfp-dlc-shutdown'):
+            return await ctx['rf_client'].shutdown()
+        if proc == 'rfcomm-dlc-disconnect':
+            await ctx['dlc'].disconnect()
+            return await ctx['rf_client'].shutdown()
+        if proc == 'rfcomm-mux-disconnect':
+            await ctx['rf_mux'].disconnect()
+            return await ctx['rf_client'].l2cap_channel.disconnect()
+        if proc == 'sdp-disconnect':
+            return await ctx['sdp_client'].disconnect()
+        if proc == 'avdtp-channel-close':
+            # a command is outstanding while the signalling channel is being closed
+            t = asyncio.ensure_future(ctx['avdtp'].get_capabilities(1))
+            ctx['side_waiters'].append(('avdtp-pending-command', 0, t))
+            await asyncio.sleep(0)
+            return await ctx['avdtp'].l2cap_channel.disconnect()
         if proc == 'encrypt':
             return await c0.encrypt()
         if proc == 'coc-connect':
@@ -513,14 +796,26 @@ def dead_handle_leftovers(rg, dev, dead_handles, dead_conns):
     out = []
     d = rg.devices[dev]
     gs = d.gatt_server
-    for name in ('subscribers', 'indication_semaphores', 'pending_confirmations'):
+    # every map of the GATT server that is keyed by a bearer (a Connection, or an enhanced ATT channel riding on one)
+    names = ['subscribers', 'indication_semaphores', 'pending_confirmations']
+    names += [n for n, v in vars(gs).items() if isinstance(v, dict) and n not in names]
+    for name in names:
         tbl = getattr(gs, name, {})
+        if not isinstance(tbl, dict):
+            continue
         for bearer in list(tbl):
             conn = bearer if bearer in dead_conns else getattr(bearer, 'connection', None)
-            if bearer in dead_conns or conn in dead_conns:
+            if not isinstance(bearer, (int, str, bytes)) and (bearer in dead_conns or conn in dead_conns):
                 v = tbl[bearer]
-                # an empty placeholder (None, {} or a free semaphore) re-created by a
-                # finishing coroutine carries no state
+                if name == 'subscribers' and v == {}:
+                    # the server's subscription record of the bearer, made again after the teardown: it keeps the closed
+                    # bearer (and the whole Connection behind it) alive and nothing will ever remove it
+                    out.append(('gatt_server.subscribers/empty-entry-made-after-teardown'
+                                + ('' if bearer in dead_conns else '/enhanced-bearer'),
+                                f'subscribers has an (empty) entry for dead connection {getattr(bearer, "handle", bearer)}'))
+                    continue
+                # a default value (None or a free semaphore) of the two defaultdicts, re-created by a
+                # finishing coroutine, carries no state
                 if v is None or v == {} or (hasattr(v, 'locked') and not v.locked()):
                     continue
                 out.append((f'gatt_server.{name}' + ('' if bearer in dead_conns else '/enhanced-bearer'),
@@ -653,8 +948,123 @@ def judge_links(r, ctx, proc, cut, cut_dev, waiter_dev, sides, cut_at):
     return handles
 
 
-async def scenario(case, r, proc, cut, cut_at):
-    ctx = await build(case, proc)
+def judge_side_waiters(r, ctx, cut, sides, where):
+    for name, dev, task in ctx.get('side_waiters', []):
+        r.ev('side_waiters')
+        r.ev('upper_layer_waiters')
+        r.ev('oracle_evals')
+        if task.done():
+            if not task.cancelled():
+                task.exception()
+            continue
+        task.cancel()
+        if dev not in sides:
+            r.ev('waiter_not_judged_peer_transport_lost')
+        else:
+            r.bad(f'waiter/hang/{name}/{cut}', f'dev{dev}: {name} started before the cut is still pending {where}')
+
+
+def judge_upper(r, ctx, proc, cut, sides, klass, where):
+    """The ACL under every object of the scenario is gone: a classic channel / DLC that had been open must have said that
+    it closed (once), and may not be left in a state that promises service."""
+    up = ctx['upper']
+    up.sweep()
+    for rec in up.objs.values():
+        if rec['dev'] not in sides:
+            continue
+        kind, obj = rec['kind'], rec['obj']
+        state = getattr(getattr(obj, 'state', None), 'name', '?')
+        r.ev('upper_objects_tracked')
+        r.ev(f'upper_objects_{kind}')
+        r.ev('oracle_evals')
+        if kind == 'multiplexer':
+            # (has no close event of its own)
+            if state in ('CONNECTED', 'OPENING', 'CONNECTING'):
+                r.ev('multiplexer_state_after_link_gone_' + state)
+            continue
+        if rec['opened']:
+            r.ev('upper_close_event_checks')
+            if rec['closed'] != 1:
+                r.bad(f'events/{kind}-close/{"none" if not rec["closed"] else "repeated"}/{klass}/{proc}',
+                      f'dev{rec["dev"]}: the {kind} object had been open, its ACL connection is gone, and it emitted '
+                      f'{rec["closed"]} close events; state {state} {where}')
+            if state in ('OPEN', 'CONNECTED', 'WAIT_DISCONNECT', 'DISCONNECTING'):
+                r.bad(f'leftover/{kind}-state/{state}/{klass}/{proc}',
+                      f'dev{rec["dev"]}: {kind} left in state {state} after its ACL connection went {where}')
+
+
+def task_owners(task, rg):
+    """Device indices a task works for, found in the locals of its coroutine chain (self.device, self.connection.device,
+    self.manager.device, a harness delegate)."""
+    from bumble.device import Device, Connection
+    owners = set()
+    notes = []
+
+    def look(v, depth=0):
+        if isinstance(v, Device):
+            if v in rg.devices:
+                owners.add(rg.devices.index(v))
+            return
+        if isinstance(v, Connection):
+            return look(v.device)
+        if hasattr(v, 'dev_index'):
+            owners.add(v.dev_index)
+            return
+        if v in rg.hosts:
+            owners.add(rg.hosts.index(v))
+            return
+        if depth < 2 and hasattr(v, '__dict__') and type(v).__module__.startswith('bumble'):
+            for name in ('device', 'connection', 'manager', 'session', 'acl_connection', 'host'):
+                w = getattr(v, name, None)
+                if w is not None:
+                    look(w, depth + 1)
+    co = task.get_coro()
+    for _ in range(30):
+        if co is None:
+            break
+        frame = getattr(co, 'cr_frame', None) or getattr(co, 'gi_frame', None) or getattr(co, 'ag_frame', None)
+        if frame is not None:
+            for k_, v in list(frame.f_locals.items()):
+                try:
+                    look(v)
+                    if k_ == 'command' and f'command={v.name}' not in notes:
+                        notes.append(f'command={v.name}')
+                except Exception:
+                    pass
+        co = getattr(co, 'cr_await', None) or getattr(co, 'gi_yieldfrom', None) or getattr(co, 'ag_await', None)
+    task_owners.notes = notes
+    return owners
+
+
+def judge_tasks(r, ctx, proc, cut, sides, klass, where):
+    """Tasks that came into being after the connection was made, are not the harness's, and are still not done although
+    the connection is gone and the settling time (40 virtual seconds, longer than every protocol timeout) has passed:
+    something the stack started for the connection still waits."""
+    rg = ctx['rg']
+    own = set(ctx['own_tasks']) | {t for _n, _d, t in ctx.get('side_waiters', [])} | {asyncio.current_task()}
+    r.ev('task_snapshots')
+    for t in asyncio.all_tasks():
+        if t.done() or t in ctx['tasks_before'] or t in own:
+            continue
+        co = t.get_coro()
+        name = getattr(co, '__qualname__', type(co).__name__).replace('.<locals>', '')
+        owners = task_owners(t, rg)
+        r.ev('tasks_left_seen')
+        r.ev('oracle_evals')
+        judged = (set(sides) >= owners and owners) or (not owners and len(sides) == 2)
+        t.cancel()
+        if not judged:
+            r.ev('tasks_left_not_judged_other_side_or_unattributed')
+            r.add_extra_list('tasks_left_not_judged', f'{name} owners={sorted(owners)} sides={list(sides)}')
+            continue
+        cmd = ''.join(f'[{n.split("=")[1]}]' for n in task_owners.notes[:1])
+        r.bad(f'waiter/task-left/{name}{cmd}/{klass}',
+              f'a task the stack created after the connection was made ({name}, working for device(s) {sorted(owners)}) is '
+              f'still pending after the connection went and 40 virtual s passed {" ".join(task_owners.notes)} {where}')
+
+
+async def scenario(case, r, proc, cut, cut_at, pos='log'):
+    ctx = await build(dict(case, _dry=cut_at is None), proc)
     rg, c0, c1 = ctx['rg'], ctx['c0'], ctx['c1']
     op = make_op(ctx, proc)
     start = len(rg.hci_log)
@@ -668,6 +1078,12 @@ async def scenario(case, r, proc, cut, cut_at):
             _conn.on('disconnection', lambda *a, _d=_dev: snaps.setdefault(_d, link_snapshot(rg, _d)))
 
     def do_cut():
+        if 'prompt_state' in ctx:
+            ctx['prompt_state']['cut'] = True
+            for rec in ctx['prompt_state']['prompts']:
+                rec['pending_at_cut'] = not rec['ended']
+        if 'value_callbacks' in ctx:
+            ctx['value_callbacks_pending_at_cut'] = ctx['value_callbacks'][0] - ctx['value_callbacks'][1]
         if cut.startswith('lost') and 'watch' in ctx:
             snaps.setdefault(cut_dev, link_snapshot(rg, cut_dev))
         if cut.startswith('disc'):
@@ -678,7 +1094,7 @@ async def scenario(case, r, proc, cut, cut_at):
                     await conn.disconnect()
                 except Exception:
                     pass
-            asyncio.ensure_future(go())
+            ctx['own_tasks'].append(asyncio.ensure_future(go()))
         else:
             rg.cut_transport(cut_dev)
             try:
@@ -686,14 +1102,40 @@ async def scenario(case, r, proc, cut, cut_at):
             except Exception as e:
                 rg.note_exception(f'on_transport_lost{cut_dev}', e)
 
+    target = []
+
     def on_log(rec):
-        if cut_at is not None and not fired and len(rg.hci_log) - start >= cut_at:
+        if cut_at and not fired and len(rg.hci_log) - start >= cut_at:
+            if pos == 'log':
+                fired.append(len(finished) == 0)
+                rg.loop.call_soon(do_cut)
+            elif pos == 'sync':
+                # in the very turn the message is emitted (a disconnect() started now puts its command right behind it)
+                fired.append(len(finished) == 0)
+                do_cut()
+            elif not target:
+                target.append((rec[1], rec[2], bytes(rec[3])))
+
+    def on_delivery(dev, direction, packet):
+        # called just before the receiver is handed the packet: what is scheduled here runs before anything the receiver
+        # spawns for that packet
+        if target and not fired and (dev, direction, bytes(packet)) == target[0]:
             fired.append(len(finished) == 0)
             rg.loop.call_soon(do_cut)
 
     rg.on_hci_logged.append(on_log)
+    if pos == 'delivered':
+        rg.on_hci_delivery.append(on_delivery)
     task = asyncio.ensure_future(op())
     task.add_done_callback(lambda t: finished.append(1))
+    ctx['own_tasks'].append(task)
+    if cut_at == 0:
+        # the cut starts together with the procedure (request and Disconnect command leave back to back)
+        fired.append(True)
+        if cut.startswith('disc'):
+            do_cut()
+        else:
+            rg.loop.call_soon(do_cut)   # (after the first step of the procedure: it was started on a live connection)
     outcome = 'ok'
     try:
         await vloop.vwait(asyncio.shield(task))
@@ -775,6 +1217,35 @@ async def scenario(case, r, proc, cut, cut_at):
         for sub, what in left:
             r.bad(f'leftover/{sub}/{"transport-loss" if cut.startswith("lost") else "disconnect"}' + kp(proc),
                   f'dev{dev}: {what} ({proc}, {cut} at message {cut_at})')
+    klass = 'transport-loss' if cut.startswith('lost') else 'disconnect'
+    where_ = f'({proc}, {cut} at message {cut_at}/{pos})'
+    if 'upper' in ctx:
+        judge_upper(r, ctx, proc, cut, sides, klass, where_)
+    if 'watch' not in ctx and 'upper' in ctx:
+        judge_side_waiters(r, ctx, cut, sides, where_)
+    if 'prompt_state' in ctx:
+        for rec in ctx['prompt_state']['prompts']:
+            r.ev('delegate_prompts')
+            r.ev(f'delegate_prompts_{rec["prompt"]}')
+            if rec['pending_at_cut']:
+                r.ev('delegate_prompts_pending_at_cut')
+                r.ev(f'delegate_prompts_pending_at_cut_{rec["prompt"]}')
+            if rec['dev'] in sides:
+                r.ev('oracle_evals')
+                if not rec['ended']:
+                    r.bad(f'waiter/delegate-prompt-left/{rec["prompt"]}/{klass}/{proc}',
+                          f'dev{rec["dev"]}: the call delegate.{rec["prompt"]}() made by the stack for the pairing is still '
+                          f'waiting for the user after the connection went and the settling time passed {where_}')
+    if 'value_callbacks' in ctx:
+        r.ev('value_callbacks_started', ctx['value_callbacks'][0])
+        r.ev('value_callbacks_pending_at_cut', ctx.get('value_callbacks_pending_at_cut', 0))
+        if 1 in sides:
+            r.ev('oracle_evals')
+            if ctx['value_callbacks'][0] != ctx['value_callbacks'][1]:
+                r.bad(f'waiter/value-callback-left/{klass}/{proc}',
+                      f'{ctx["value_callbacks"][0]} value callbacks of the GATT server started, {ctx["value_callbacks"][1]} '
+                      f'ended {where_}')
+    judge_tasks(r, ctx, proc, cut, sides, klass, where_)
     for dev, led in enumerate(ctx['ledgers']):
         r.ev('handle_distinctness_checks')
         r.ev('oracle_evals')
@@ -788,7 +1259,9 @@ async def scenario(case, r, proc, cut, cut_at):
         else:
             r.ev('exceptions_in_stack_after_cut')
             r.add_extra_list('exceptions_after_cut', f'{proc}/{cut}: {where}: {e}'[:160])
-    r.sig(proc, cut, cut_at)
+    r.sig(proc, cut, cut_at, pos) if pos != 'log' else r.sig(proc, cut, cut_at)
+    if pos != 'log':
+        r.ev(f'cut_runs_{pos}')
     r.sched.add(rg.schedule_signature)
     return n
 
@@ -2033,18 +2506,23 @@ def run_case(case, r: R):
         rng = random.Random(case['seed'])
         pts = head + sorted(rng.sample(rest, case['max_points'] - len(head)))
     pts = pts[case.get('part', 0)::case.get('parts', 1)]
-    for k in pts:
+    pts = [(k, pos) for k in pts for pos in positions(proc, cut)]
+    if proc in FINE_PROCS and case.get('part', 0) == 0:
+        pts.insert(0, (0, 'log'))
+    for k, pos in pts:
         try:
-            vloop.run(scenario(case, r, proc, cut, k))
+            vloop.run(scenario(case, r, proc, cut, k, pos))
         except vloop.Hang as e:
             r.bad(f'waiter/hang/harness/{proc}/{cut}', f'{e} at cut index {k}')
         r.evals()
     r.sample = {'procedure': proc, 'cut': cut, 'messages_in_dry_run': n, 'cut_points': pts}
 
 
-LEVEL_TEXT = ('Fault enumeration: for 33 procedures (26 on the ACL connection - among them enhanced ATT bearers, queued '
-              'indications, a cancelled channel disconnect, an AVDTP command -, 4 on CIS links and 3 on an eSCO link riding '
-              'on it) x 4 cut kinds the link is dropped or the HCI transport lost at every '
+LEVEL_TEXT = ('Fault enumeration: for 48 procedures (41 on the ACL connection - among them enhanced ATT bearers, queued '
+              'indications, a cancelled channel disconnect, an AVDTP command, teardown of RFCOMM / SDP / AVDTP / HFP sessions, '
+              'requests being served by the GATT server, pairing of every association model with a slow user -, 4 on CIS '
+              'links and 3 on an eSCO link riding on it; after each cut also every task the stack spawned for the connection must '
+              'be done) x 4 cut kinds the link is dropped or the HCI transport lost at every '
               'HCI-message index of the procedure (thorough; up to 150 indices per pair in quick, which is every index for all but the longest procedures), each on a '
               'fresh rig; afterwards the waiter must have ended within 300 virtual seconds, host/device/controller '
               'connection tables must agree and no per-connection state of the dead connection may remain in GATT '
